@@ -144,6 +144,11 @@ func (n *LocalNode) FindSuccessor(key uint64) (chord.VNode, error) {
 	}
 	// find next in ring according to finger table
 	closest := n.closestPrecedingNode(key)
+	if closest.ID() == n.ID() {
+		// no finger precedes the key (e.g. the finger table is not repaired yet after joining):
+		// forwarding to ourselves would recurse forever, hand the lookup to our successor instead
+		return succ.FindSuccessor(key)
+	}
 	// contact possibly remote node
 	return closest.FindSuccessor(key)
 }
